@@ -465,17 +465,8 @@ fn only_plain(e: &Ex) -> bool {
     match e { Ex::Atom(_) => true, Ex::Un(x) => only_plain(x), Ex::Bin(l, _, r) => only_plain(l) && only_plain(r), Ex::Node(k, a) => (*k == 0 || *k == 1) && a.iter().all(only_plain) }
 }
 
-fn classify(b: B, e: &Ex) -> Option<&'static str> {
-    // MySQL: the pattern of LIKE must be a simple_expr; the crate leaves arithmetic / shift patterns bare
-    fn has_like_arith(e: &Ex) -> bool {
-        match e {
-            Ex::Bin(l, o, r) => ((*o == 2 || *o == 3) && matches!(&**r, Ex::Bin(_, i, _) if (16..=20).contains(i) || *i == 23 || *i == 24)) || has_like_arith(l) || has_like_arith(r),
-            Ex::Un(x) => has_like_arith(x), Ex::Node(_, a) => a.iter().any(has_like_arith), _ => false,
-        }
-    }
-    if b == B::Mysql && has_like_arith(e) { return Some("C05.mysql_like_pattern_not_simple"); }
-    None
-}
+/// classes of known, recorded findings (none at present: the MySQL LIKE-pattern finding was repaired, fix 03bd74c)
+fn classify(_b: B, _e: &Ex) -> Option<&'static str> { None }
 
 fn check_tree(ctx: &mut Ctx, b: B, sp: &Spell, e: &Ex) {
     let sql = render(b, &build(e));
